@@ -476,6 +476,66 @@ pub fn apply_single<P: TP, V: Val>(side: &mut Side<P, V>, op: &Op, env: &mut Env
             side.peak_nodes = 1;
             env.ev("from_iter");
         }
+        Op::BulkInsert { under, n, seed, .. } => {
+            let (_, base) = rs::<P>(env, *under);
+            let mut s = *seed;
+            env.cur_op = "insert";
+            let mut new = 0;
+            for _ in 0..*n {
+                s = splitmix(s);
+                let extra = 1 + (s % 18) as u8;
+                let len = (base.len as u32 + extra as u32).min(P::W as u32) as u8;
+                s = splitmix(s);
+                let rnd = ((s as u128) << 64) | splitmix(s ^ 0x9E37) as u128;
+                let m = crate::tp::len_mask(base.len);
+                let bits = ((base.bits & m) | (rnd & !m)) & crate::tp::width_mask(P::W);
+                let p: P = P::make(bits, len);
+                let r = raw_of(&p);
+                let v = env.fresh();
+                let got = side.map.insert(p, V::mk(v)).map(|x| x.id());
+                let want = side.model.insert(r, v);
+                ensure!(got == want, "C01", "C01:insert:return", "step {step}: insert({:?}) returned {:?}, model {:?}", r.key(), got, want);
+                if want.is_none() {
+                    new += 1;
+                }
+            }
+            env.evn("bulk_inserted_new", new);
+            if side.model.len() >= 256 {
+                env.ev("model_ge256");
+            }
+        }
+        Op::ChainInsert { along, seed, .. } => {
+            let (_, base) = rs::<P>(env, *along);
+            // address: the base prefix extended by seed-derived bits
+            let mut s = *seed;
+            s = splitmix(s);
+            let rnd = ((s as u128) << 64) | splitmix(s ^ 0x51) as u128;
+            let m = crate::tp::len_mask(base.len);
+            let addr = ((base.bits & m) | (rnd & !m)) & crate::tp::width_mask(P::W);
+            let mut lens: Vec<u8> = (0..=P::W).collect();
+            // order: ascending, descending or shuffled
+            match s % 3 {
+                0 => {}
+                1 => lens.reverse(),
+                _ => {
+                    for i in (1..lens.len()).rev() {
+                        s = splitmix(s);
+                        lens.swap(i, (s % (i as u64 + 1)) as usize);
+                    }
+                }
+            }
+            env.cur_op = "insert";
+            for len in lens {
+                let p: P = P::make(addr, len);
+                let r = raw_of(&p);
+                let v = env.fresh();
+                let got = side.map.insert(p, V::mk(v)).map(|x| x.id());
+                let want = side.model.insert(r, v);
+                ensure!(got == want, "C01", "C01:insert:return", "step {step}: insert({:?}) returned {:?}, model {:?}", r.key(), got, want);
+                env.uni.push(Raw { bits: addr, len });
+            }
+            env.ev("chain_full_depth");
+        }
         Op::SetOpMut { .. } => unreachable!(),
     }
     env.cur_op = "";
